@@ -1,6 +1,8 @@
 (* Proofs/DiskWriteProofs.v — one writeFile on one side (C05 step, C06 frame, C04 conformance of a single store).  TOP statements are fixed. *)
 From Coq Require Import ZArith List Bool Lia ZifyBool.
 Require Import PyBase GenDisk DiskFacts Disk ThomsonDos PyFacts DiskDefs.
+Require Import DiskFactsWrite DWriteList DWriteLens DWriteSpec DWriteInit.
+Require Import DWriteAlloc DWriteSlices DWriteData DWriteCat DWriteModel DWriteInsert.
 Import ListNotations.
 Open Scope Z_scope.
 Ltac Zify.zify_post_hook ::= Z.to_euclidean_division_equations.
@@ -10,7 +12,155 @@ Theorem init_fs_strict : forall sd : side,
   side_geometry sd = true ->
   fsck_strict (init_fs sd) = true /\ tool_readable (init_fs sd) = true /\ names_printable (init_fs sd) = true /\
   dos_files (init_fs sd) = Some [] /\ free_count (init_fs sd) = 157.
-Admitted.
+Proof. exact wi_init_all. Qed.
+
+
+(* ---------- helpers for the two writeFile theorems ---------- *)
+Lemma dw_forallb_map {A B} (p : B -> bool) (g : A -> B) l : forallb p (map g l) = forallb (fun x => p (g x)) l.
+Proof. induction l as [|x l IH]; [reflexivity|]. cbn [map forallb]. now rewrite IH. Qed.
+
+Lemma dw_readable_parts sd : tool_readable sd = true ->
+  fsck_read sd = true /\ slots_in_table sd = true /\ geom sd /\
+  st_reserved (fstatus (fat sd) 40) = true /\ st_reserved (fstatus (fat sd) 41) = true.
+Proof.
+  unfold tool_readable. intros H. apply andb_prop in H. destruct H as (Hr & Hs).
+  destruct (ws_fsck_read_elim sd Hr) as (Hg & _ & H40 & H41 & _). apply wn_geom_iff in Hg.
+  split; [exact Hr|]. split; [exact Hs|]. split; [exact Hg|]. split; assumption.
+Qed.
+
+(* a refusal after the slices were written: the three views are as before *)
+Lemma dw_same_views sd sd' alloc : tool_readable sd = true -> geom sd' ->
+  (forall x, In x alloc -> 0 <= x < 160 /\ st_free (fstatus (fat sd) x) = true) ->
+  (forall i, ~ touched alloc i -> nsec sd' i = nsec sd i) ->
+  nsec sd' 321 = nsec sd 321 /\ fat sd' = fat sd /\ cat_entries sd' = cat_entries sd /\ dos_files sd' = dos_files sd.
+Proof.
+  intros Htr Hg' Hal Hout. destruct (dw_readable_parts sd Htr) as (Hread & _ & Hg & H40 & H41).
+  pose proof (wm_untouched_fs (fat sd) alloc H40 H41 Hal) as Hfs.
+  assert (E321 : nsec sd' 321 = nsec sd 321) by (apply Hout, Hfs; lia).
+  assert (Efat : fat sd' = fat sd) by now apply wn_fat_ext.
+  assert (Ecat : cat_entries sd' = cat_entries sd) by (apply wn_cat_entries_ext; intros i Hi; apply Hout, Hfs; lia).
+  repeat split; try assumption.
+  destruct (ws_fsck_read_elim sd Hread) as (_ & _ & _ & _ & fs & Hfs' & _).
+  rewrite Hfs'. unfold dos_files in *. rewrite Efat, Ecat.
+  apply (ws_foe_stable sd sd' (fat sd) (fat sd)); [intros b _ _; reflexivity| |exact Hfs'].
+  intros b j Hb Hus Hj. apply Hout. intros (b' & j' & Hb' & Hj' & E). destruct (Hal b' Hb') as (Hr' & Hf').
+  assert (b' = b) by lia. subst b'. apply ws_used_not_free in Hus. destruct Hus as (Hus & _). congruence.
+Qed.
+
+Lemma dw_same_checks sd sd' : geom sd -> geom sd' ->
+  nsec sd' 321 = nsec sd 321 -> fat sd' = fat sd -> cat_entries sd' = cat_entries sd -> dos_files sd' = dos_files sd ->
+  (tool_readable sd = true -> tool_readable sd' = true) /\
+  (names_printable sd = true -> names_printable sd' = true) /\
+  (fsck_strict sd = true -> fsck_strict sd' = true) /\ free_count sd' = free_count sd.
+Proof.
+  intros Hg Hg' E321 Efat Ecat Edos.
+  apply wn_geom_iff in Hg, Hg'.
+  unfold tool_readable, names_printable, fsck_strict, fsck_read, slots_in_table, free_count.
+  rewrite wn_fat_sector, E321, Efat, Ecat, Edos, Hg, Hg'. repeat split; intros H; exact H.
+Qed.
+
+Lemma dw_first_printable name : forallb printable_char name = true ->
+  e_live (record_bytes (pad_to 8 (upper_ascii name)) [] 0 0 0 0) = true.
+Proof.
+  intros Hn. unfold e_live.
+  assert (Hp : forallb printable_char (pad_to 8 (upper_ascii name)) = true)
+    by (apply wc_pad_to_printable; now apply wc_upper_ascii_printable).
+  pose proof (wc_pad_to_length 8 (upper_ascii name)) as Hl.
+  destruct (pad_to 8 (upper_ascii name)) as [|c r]; [discriminate|].
+  cbn [forallb] in Hp. apply andb_prop in Hp. destruct Hp as (Hc & _).
+  unfold record_bytes. cbn [app nth]. unfold printable_char in Hc. lia.
+Qed.
+
+Lemma dw_rec_live n8 x3 k fl fi la : length n8 = 8%nat -> length x3 = 3%nat -> forallb printable_char n8 = true ->
+  e_live (record_bytes n8 x3 k fl fi la) = true.
+Proof.
+  intros L8 L3 Hp. pose proof (wc_record_views n8 x3 k fl fi la L8 L3) as V. cbv zeta in V.
+  destruct V as (_ & _ & _ & _ & _ & _ & _ & _ & V & _). unfold e_live. rewrite V.
+  destruct n8 as [|c r]; [discriminate|]. cbn [forallb] in Hp. apply andb_prop in Hp. destruct Hp as (Hc & _).
+  cbn [nth]. unfold printable_char in Hc. lia.
+Qed.
+
+Lemma dw_stored sd content name ext kind dtype res :
+  tool_readable sd = true -> write_args_ok name ext kind dtype content = true ->
+  outcome_stored sd content name ext kind dtype res ->
+  tool_readable (fst res) = true /\
+  (names_printable sd = true -> names_printable (fst res) = true) /\
+  (fsck_strict sd = true -> fsck_strict (fst res) = true) /\
+  has_free_slot sd = true /\
+  exists fs1 fs2 blocks,
+    dos_files sd = Some (fs1 ++ fs2) /\
+    dos_files (fst res) = Some (fs1 ++ stored_file name ext kind (dtype =? 1) content blocks :: fs2) /\
+    zlen blocks = needed_blocks (zlen content) /\
+    Forall (fun b => st_free (fstatus (fat sd) b) = true) blocks /\
+    free_count (fst res) = free_count sd - zlen blocks.
+Proof.
+  intros Htr Hargs Hout. unfold outcome_stored in Hout. cbv zeta in Hout.
+  destruct Hout as (Henough & _ & Hg' & bat1 & l1 & sl & l2 & Htab & Hsplit & Hl1 & Hsl & E321 & Hother & Hrec & Hdata & Hcc).
+  destruct (dw_readable_parts sd Htr) as (Hread & Hslots & Hg & H40 & H41).
+  destruct (wm_args _ _ _ _ _ Hargs) as (Hname & Hext & Hkind & Hdt & Hcb).
+  destruct (wm_alloc_facts sd content Hg Henough) as (Hnd & Hal & Hlen).
+  pose proof (wl_zlen_nonneg content) as Hlen0.
+  destruct (wa_plan_facts (zlen content) Hlen0) as (P1 & P2 & P3 & P4 & P5 & _).
+  set (sd' := fst res) in *. set (alloc := alloc_of sd content) in *.
+  set (u := plan_lastblk (zlen content)) in *. set (lb := plan_lastsec (zlen content)) in *.
+  set (n8 := pad_to 8 (upper_ascii name)) in *. set (x3 := pad_to 3 (upper_ascii ext)) in *.
+  assert (L8 : length n8 = 8%nat) by apply wc_pad_to_length.
+  assert (L3 : length x3 = 3%nat) by apply wc_pad_to_length.
+  assert (Hp8 : forallb printable_char n8 = true) by (apply wc_pad_to_printable; now apply wc_upper_ascii_printable).
+  assert (Hp3 : forallb printable_char x3 = true) by (apply wc_pad_to_printable; now apply wc_upper_ascii_printable).
+  set (rec := record_bytes n8 x3 kind (data_to_byte dtype) (nth 0 alloc 0) lb) in *.
+  pose proof (wc_record_views n8 x3 kind (data_to_byte dtype) (nth 0 alloc 0) lb L8 L3) as V. cbv zeta in V. fold rec in V.
+  destruct V as (V1 & V2 & V3 & V4 & V5 & V6 & V7 & V8 & V9 & V10).
+  pose proof wn_all_slots_nodup as Hnds. rewrite Hsplit in Hnds. apply NoDup_remove_2 in Hnds.
+  assert (Hin_all : forall x, In x l1 \/ In x l2 -> In x all_slots /\ x <> sl).
+  { intros x Hx. split.
+    - rewrite Hsplit. apply in_or_app. destruct Hx as [Hx|Hx]; [now left|right; now right].
+    - intros ->. apply Hnds. apply in_or_app. exact Hx. }
+  assert (Hcat : cat_entries sd = map (entry_at sd) l1 ++ entry_at sd sl :: map (entry_at sd) l2).
+  { rewrite wn_cat_entries_slots, Hsplit, map_app. reflexivity. }
+  assert (Hcat' : cat_entries sd' = map (entry_at sd) l1 ++ rec :: map (entry_at sd) l2).
+  { rewrite wn_cat_entries_slots, Hsplit, map_app. cbn [map]. rewrite Hrec. f_equal; [|f_equal].
+    - apply map_ext_in. intros x Hx. apply Hother; apply Hin_all; now left.
+    - apply map_ext_in. intros x Hx. apply Hother; apply Hin_all; now right. }
+  pose proof Hg as (_ & Hsecs). destruct (Hsecs 321%nat ltac:(lia)) as (Hp256 & _).
+  assert (Hfat' : fat sd' = bat1).
+  { unfold fat. rewrite wn_fat_sector, E321. apply wn_table_sector_fat; [exact Hp256|apply Htab]. }
+  assert (Hne : alloc <> []) by (intros E; rewrite E in Hlen; cbn [length] in Hlen; lia).
+  assert (Hb0 : nth 0 (nsec sd' fat_sector) 255 = nth 0 (nsec sd fat_sector) 255).
+  { rewrite wn_fat_sector, E321. rewrite wn_table_sector_nth by (try exact Hp256; apply Htab). reflexivity. }
+  destruct (wi_all sd sd' alloc bat1 u lb (map (entry_at sd) l1) (map (entry_at sd) l2) (entry_at sd sl) rec content
+              Hread Hg' Hfat' Hcat Hcat') as (R1 & R2 & R3 & R4 & R5 & fs1 & fs2 & R6 & R7);
+    try assumption.
+  - now rewrite dw_forallb_map.
+  - now apply dw_rec_live.
+  - rewrite V8, forallb_app, Hp8, Hp3. reflexivity.
+  - rewrite V7. apply wl_forallb_repeat. reflexivity.
+  - split; [unfold tool_readable; now rewrite R1, R2|]. split; [exact R3|]. split; [exact R4|].
+    split.
+    + apply (wm_has_free_slot_true sd sl); [|exact Hsl]. rewrite Hsplit. apply in_or_app. right. now left.
+    + exists fs1, fs2, alloc. split; [exact R6|]. split; [|split; [|split; [|exact R5]]].
+      * rewrite R7. unfold stored_file. rewrite V1, V2, V3, V4. do 3 f_equal.
+        rewrite gw_data_to_byte. destruct Hdt as [-> | ->]; reflexivity.
+      * unfold zlen at 1. lia.
+      * apply Forall_forall. intros x Hx. now apply Hal.
+Qed.
+
+(* a refusal for want of a catalogue slot *)
+Lemma dw_refused_slot sd content res :
+  tool_readable sd = true -> outcome_refused_slot sd content res ->
+  tool_readable (fst res) = true /\
+  (names_printable sd = true -> names_printable (fst res) = true) /\
+  (fsck_strict sd = true -> fsck_strict (fst res) = true) /\
+  dos_files (fst res) = dos_files sd /\ fat (fst res) = fat sd /\ cat_entries (fst res) = cat_entries sd /\
+  nsec (fst res) 321 = nsec sd 321.
+Proof.
+  intros Htr (Henough & _ & _ & Hg' & Hout).
+  destruct (dw_readable_parts sd Htr) as (_ & _ & Hg & _ & _).
+  destruct (wm_alloc_facts sd content Hg Henough) as (_ & Hal & _).
+  destruct (dw_same_views sd (fst res) _ Htr Hg' Hal Hout) as (E321 & Efat & Ecat & Edos).
+  destruct (dw_same_checks sd (fst res) Hg Hg' E321 Efat Ecat Edos) as (C1 & C2 & C3 & _).
+  split; [now apply C1|]. split; [exact C2|]. split; [exact C3|]. now repeat split.
+Qed.
 
 (* TOP: one writeFile on a well-formed side.  Whatever the outcome the side stays well formed
    (and strict if it was); a success inserts exactly the new file, with its content laid out on
@@ -38,7 +188,36 @@ Theorem write_file_step : forall (sd : side) (content name ext : list Z) (kind d
     dos_files sd' = dos_files sd /\ fat sd' = fat sd /\ cat_entries sd' = cat_entries sd
   | Err _ => False
   end.
-Admitted.
+Proof.
+  intros sd content name ext kind dtype Htr Hargs sd' r. subst sd' r.
+  destruct (wm_cases sd content name ext kind dtype Htr Hargs) as [HA|[HB|HC]].
+  - destruct HA as (Hshort & ->). cbn [fst snd].
+    split; [exact Htr|]. split; [intros H; exact H|]. split; [intros H; exact H|].
+    split; [left; exact Hshort|]. split; [reflexivity|]. split; reflexivity.
+  - destruct (dw_refused_slot sd content _ Htr HB) as (C1 & C2 & C3 & Edos & Efat & Ecat & _).
+    destruct HB as (_ & Hnoslot & Hsnd & _). rewrite Hsnd.
+    split; [exact C1|]. split; [exact C2|]. split; [exact C3|].
+    split; [right; exact Hnoslot|]. split; [exact Edos|]. split; [exact Efat|exact Ecat].
+  - destruct (dw_stored sd content name ext kind dtype _ Htr Hargs HC) as (C1 & C2 & C3 & Hslot & Hex).
+    destruct HC as (Henough & Hsnd & _). rewrite Hsnd.
+    split; [exact C1|]. split; [exact C2|]. split; [exact C3|].
+    split; [exact Henough|]. split; [exact Hslot|exact Hex].
+Qed.
+
+Lemma dw_not_touched f alloc b j :
+  (forall x, In x alloc -> 0 <= x < 160 /\ st_free (fstatus f x) = true) ->
+  0 <= b < 160 -> 0 <= j < 8 -> st_free (fstatus f b) = false -> ~ touched alloc (Z.to_nat (8 * b + j)).
+Proof.
+  intros Hal Hb Hj Hnf (b' & j' & Hb' & Hj' & E). destruct (Hal b' Hb') as (Hr' & Hf').
+  assert (b' = b) by lia. subst b'. congruence.
+Qed.
+
+Lemma dw_nth_entries sd i : (i < 112)%nat -> nth i (cat_entries sd) [] = entry_at sd (nth i all_slots (0%nat, 0%nat)).
+Proof.
+  intros Hi. rewrite wn_cat_entries_slots.
+  rewrite (nth_indep _ [] (entry_at sd (0%nat, 0%nat))) by (rewrite map_length, wn_all_slots_length; exact Hi).
+  apply map_nth.
+Qed.
 
 (* TOP (C06): what one writeFile may modify.  No sector of a block that was in use or reserved,
    the table and catalogue sectors excepted; in the table sector only status bytes of formerly
@@ -54,4 +233,52 @@ Theorem write_file_frame : forall (sd : side) (content name ext : list Z) (kind 
      (1 <= k <= 160)%nat /\ st_free (nth k (nsec sd fat_sector) 0) = true) /\
   (forall i : nat, nth i (cat_entries sd') [] <> nth i (cat_entries sd) [] ->
      e_live (nth i (cat_entries sd) []) = false).
-Admitted.
+Proof.
+  intros sd content name ext kind dtype Htr Hargs sd'. subst sd'.
+  destruct (dw_readable_parts sd Htr) as (Hread & Hslots & Hg & H40 & H41).
+  destruct (wm_cases sd content name ext kind dtype Htr Hargs) as [HA|[HB|HC]].
+  - destruct HA as (_ & ->). cbn [fst].
+    split; [reflexivity|]. split; [intros; reflexivity|]. split; [intros k Hk; now elim Hk|intros i Hi; now elim Hi].
+  - destruct (dw_refused_slot sd content _ Htr HB) as (_ & _ & _ & _ & _ & Ecat & E321).
+    destruct HB as (Henough & _ & _ & Hg' & Hout).
+    destruct (wm_alloc_facts sd content Hg Henough) as (_ & Hal & _).
+    split; [destruct Hg as (-> & _); apply Hg'|]. split; [|split].
+    + intros b j Hb Hj Hnf _ _. apply Hout. now apply (dw_not_touched (fat sd)).
+    + intros k Hk. rewrite wn_fat_sector, E321 in Hk. now elim Hk.
+    + intros i Hi. rewrite Ecat in Hi. now elim Hi.
+  - unfold outcome_stored in HC. cbv zeta in HC.
+    destruct HC as (Henough & _ & Hg' & bat1 & l1 & sl & l2 & Htab & Hsplit & Hl1 & Hsl & E321 & Hother & Hrec & Hdata & Hcc).
+    destruct (wm_alloc_facts sd content Hg Henough) as (_ & Hal & _).
+    set (res := write_file sd content name ext kind dtype) in *.
+    set (alloc := alloc_of sd content) in *.
+    pose proof Hg as (_ & Hsecs). destruct (Hsecs 321%nat ltac:(lia)) as (Hp256 & _).
+    destruct Htab as (L1 & Bout & _).
+    pose proof (wn_fat_length sd Hg) as Hfl.
+    split; [destruct Hg as (-> & _); apply Hg'|]. split; [|split].
+    + intros b j Hb Hj Hnf N1 N2. apply Hdata; [now apply (dw_not_touched (fat sd))|lia|lia].
+    + intros k Hk. rewrite wn_fat_sector, E321 in Hk. rewrite wn_table_sector_nth in Hk by assumption.
+      destruct ((1 <=? k) && (k <=? 160))%nat eqn:E; [|now elim Hk].
+      split; [lia|]. rewrite wn_fat_sector.
+      assert (Ef : forall d, nth (k - 1) (fat sd) d = nth k (nsec sd 321) d).
+      { intros d. unfold fat. rewrite wn_fat_sector, wl_nth_firstn by lia. rewrite wl_nth_skipn. f_equal. lia. }
+      destruct (in_dec Z.eq_dec (Z.of_nat (k - 1)) alloc) as [Hin|Hnin].
+      * destruct (Hal _ Hin) as (_ & Hf). unfold fstatus in Hf. rewrite Nat2Z.id in Hf.
+        rewrite <- Ef. rewrite (nth_indep _ 0 255) by lia. exact Hf.
+      * exfalso. apply Hk. rewrite <- Ef.
+        rewrite (nth_indep bat1 0 255), (nth_indep (fat sd) 0 255) by lia. now apply Bout.
+    + intros i Hi. destruct (Nat.lt_ge_cases i 112) as [Hlt|Hge].
+      * rewrite !dw_nth_entries in * by exact Hlt.
+        assert (Hin : In (nth i all_slots (0%nat, 0%nat)) all_slots) by (apply nth_In; rewrite wn_all_slots_length; exact Hlt).
+        set (x := nth i all_slots (0%nat, 0%nat)) in *.
+        assert (Hdec : x = sl \/ x <> sl).
+        { destruct x as (a1, a2), sl as (b1, b2).
+          destruct (Nat.eq_dec a1 b1) as [->|N1]; [|right; congruence].
+          destruct (Nat.eq_dec a2 b2) as [->|N2]; [now left|right; congruence]. }
+        destruct Hdec as [->|Hne]; [exact Hsl|]. exfalso. apply Hi. now apply Hother.
+      * exfalso. apply Hi. rewrite !nth_overflow; [reflexivity| |];
+          rewrite wn_cat_entries_slots, map_length, wn_all_slots_length; exact Hge.
+Qed.
+
+Print Assumptions init_fs_strict.
+Print Assumptions write_file_step.
+Print Assumptions write_file_frame.
